@@ -356,8 +356,10 @@ class GeneralizedSabreAlgorithm:
         frontier = list(copy.copy(F))
         while len(frontier) > 0 and len(extended_set) < self.extended_set_size:
             n = frontier.pop(0)
-            extended_set.update(circuit.next(n))
-            frontier.extend(circuit.next(n))
+            for successor in circuit.next(n):
+                if successor not in extended_set:
+                    extended_set.add(successor)
+                    frontier.append(successor)
         return extended_set
 
     def _get_best_swap(
